@@ -7,6 +7,8 @@ from vlib import *
 TEMPLATES = {
     "lex-unclosed-string": ("from t | select {a, x = «\"abc}»", None),
     "lex-bad-char": ("from t | select {a, x = b «^» 2}", None),
+    "lex-unclosed-fstring-eof": ("from t | select {a, x = f\"{a}«»", None),          # reported at the end of input (empty span)
+    "lex-unclosed-sstring-eof": ("from t | derive x = s\"abs({a}«»", None),
     "syn-double-comma": ("from t | select {a«,», b}", None),
     "syn-missing-operand": ("from t | derive {x = (a +«)»}", None),
     "syn-unclosed-brace": ("from t | select {a, b«»", None),
@@ -74,8 +76,10 @@ def check(tier):
     for i, c in enumerate(replay_lines(out)):
         if c["place"] == "none" and c["pad"] != pads[0]:
             continue
-        if c["tmpl"] in ("syn-unclosed-brace", "syn-let-newline", "syn-into-newline") and c["layout"] in ("project-module", "project-suffix"):
+        if c["tmpl"] in ("syn-unclosed-brace", "syn-let-newline", "syn-into-newline", "lex-unclosed-fstring-eof", "lex-unclosed-sstring-eof") and c["layout"] in ("project-module", "project-suffix"):
             continue        # an unclosed brace inside `let q = ( ... )` is reported at the end of the enclosing file
+        if c["tmpl"].endswith("-eof") and c["place"] in ("comment-after", "line-after"):
+            continue        # the unclosed literal swallows the text that follows: the end of input is no longer where the token was planted
         x = build(c["tmpl"], c["pad"], c["place"], c["layout"])
         x["id"] = f"{c['tmpl']}/{c['pad']}/{c['place']}/{c['layout']}"
         x["meta"] = c
